@@ -1,5 +1,5 @@
 """C02 - rain and irrigation fully partitioned at the surface (kind B, exploration)."""
-from .common import std_case, std_run, STATE_MEASURE  # noqa: F401
+from .common import std_case, std_run, basin_regime, BASIN_PROFILE, STATE_MEASURE  # noqa: F401
 from ..monitors import mon_c02
 
 ID = "C02"
@@ -11,13 +11,16 @@ RULE = ("seeded swarm biased to clay/paddy soils, storms up to 300 mm, bunds wit
         "application efficiency 50-100; per day the partition identity, runoff bounds, sign of infiltration and the "
         "nothing-from-nothing rule are checked against the weather the world delivered. Non-trivial run: some day had runoff > 0 "
         "or ponding > 0; distinct = distinct configuration signatures")
-PROFILE = {"bunds": 0.5, "field_p": 0.7, "fallow_field_p": 0.5, "sr_inhb_p": 0.2, "cnadj_p": 0.4,
+PROFILE = {"reactive_p": 0.3, "bunds": 0.5, "field_p": 0.7, "fallow_field_p": 0.5, "sr_inhb_p": 0.2, "cnadj_p": 0.4,
            "soils": ["Clay", "Paddy", "SiltClay", "ClayLoam", "SandyClay", "Loam", "Sand", "SandyLoam"],
            "event_kinds": ["storm", "storm", "wet_spell", "drought", "et0_spike"], "events_per_year": 3.0,
            "irr_methods": [0, 1, 2, 3, 5, 5], "soil_switch_p": 0.6, "off_season_p": 0.6}
 
 
 def gen_case(rng, tier, idx):
+    if idx % 4 == 1:
+        # flooded basin whose management changes at harvest (bunds lowered or removed) with the off-season simulated
+        return basin_regime(rng, std_case(rng, dict(PROFILE, **BASIN_PROFILE)))
     return std_case(rng, PROFILE)
 
 
